@@ -55,6 +55,13 @@ def read_dump(path, only=None):
         yield parse_state(chunk)
 
 
+def dump_chunks(path):
+    """Raw text of every state of a TLC -dump file (parse later, e.g. inside pool workers)."""
+    with open(path) as f:
+        data = f.read()
+    return [c for c in _STATE_SPLIT.split(data) if c.strip()]
+
+
 def parse_trace_state(txt: str) -> dict:
     """A counterexample state as printed in TLC's output (first line 'State n: <action>')."""
     body = "\n".join(txt.splitlines()[1:])
